@@ -1,0 +1,13 @@
+//go:build verif
+
+package fasthttp
+
+import "bufio"
+
+// Thin exports for the /verif correspondence harness (property C30).
+
+func VerifReadHexInt(r *bufio.Reader) (int, error) { return readHexInt(r) }
+
+func VerifWriteHexInt(w *bufio.Writer, n int) error { return writeHexInt(w, n) }
+
+func VerifMaxHexIntChars() int { return maxHexIntChars }
